@@ -75,7 +75,7 @@ BuildRule(c, res) ==
     ELSE ""
 
 (* Operations performed with a built style; none of them may panic. *)
-DrawOps == {"bar", "force_draw", "ticks", "set_position", "finish", "steady"}
+DrawOps == {"bar", "force_draw", "ticks", "set_position", "finish", "steady", "slow"}
 UseRule(op, res) ==
     IF res # "panic" THEN ""
     ELSE IF op \in DrawOps THEN "DrawNoPanic"
